@@ -119,7 +119,7 @@ a global but not an entry of `env.builtins`). -/
 def coreBuiltins : List String :=
   ["+", "-", "*", "mod", "<", ">", "<=", ">=", "==", "!=", "not", "cons", "first", "rest",
    "second", "list", "array", "len", "append", "concat", "aget", "aset", "map", "apply",
-   "force", "hash", "hget", "hset"]
+   "force", "substitute", "hash", "hget", "hset"]
 
 /-- `ReservedWords` (environment.go). -/
 def reservedWords : List String :=
